@@ -451,3 +451,86 @@ def _den(e, obs, v, which):
     x = _den(e[1], obs, v, which); y = _den(e[2], obs, v, which)
     if x is None or y is None: return None
     return (x and y) if e[0] == 'isect' else (x and not y)
+
+# ------------------------------------------------------------------ C11
+RUNNER = None      # set by check.py: cases -> [(case, impl, verdict)]
+
+def gen_minv(tier, rng):
+    univ = U6 if tier == 'quick' else U8
+    univ = univ + [V(0, 0, 0), V(0, 0, 0, (5,)), V(0, 0, 1, (5,))]
+    probes = probe_versions(univ)
+    pv = [enc_version(v) for v in probes]
+    ivs = interval_texts(univ)
+    exprs = [e for (_, e) in ivs]
+    cases = []
+    for e in exprs:
+        cases.append(dump(['minv', e])); cases.append(dump(['sat', e, pv]))
+    pool = univ + [V(1, 2, 3), V(2, 1, 0, ('beta', 2)), V(0, 1, 5)]
+    probes2 = probe_versions(pool); pv2 = [enc_version(v) for v in probes2]
+    n = 1500 if tier == 'quick' else 30000
+    valid = [e for e in exprs if e[0] == 'any' or interval_nonempty_text(e)]
+    for _ in range(n):
+        k = rng.random()
+        if k < 0.4:
+            # several alternatives in any order, some of them empty or prerelease-only
+            alts = [str(rng.choice(valid[1:])[1]) for _ in range(rng.randint(2, 3))]
+            e = E_parse(' || '.join(alts))
+        elif k < 0.7:
+            e = E_parse(random_range_text(rng, pool))
+        else:
+            e = random_tree(rng, valid, rng.randint(1, 2))
+        cases.append(dump(['minv', e])); cases.append(dump(['sat', e, pv2]))
+    return cases, {'exhaustive': True, 'intervals': len(ivs), 'random': n, 'probe_versions': len(probes2),
+                   'what': 'min_version of every one-interval range over a %d-version universe (exclusive lower bounds directly under the upper bound, unbounded-below alternatives that are '
+                           'empty or prerelease-only, prerelease bounds), of %d random multi-alternative ranges and set-operation results; compared against satisfies() on %d candidate versions'
+                           % (len(univ), n, len(probes2))}
+
+def eval_minv(triples, tier, rng):
+    import families as F
+    obs = Obs(triples); fails = []; nontrivial = 0; certs = []
+    dist = {'ranges': 0, 'some': 0, 'none': 0, 'unparseable': 0, 'result_is_prerelease': 0, 'second_phase_probes': 0}
+    results = {}
+    for c, o, v in triples:
+        pc = parse(c)
+        if pc[0] != 'minv': continue
+        key = dump(pc[1])
+        if o == 'panic':
+            fails.append(fail('min_version panicked on %s' % rtext(pc[1]), c, input=[rtext(pc[1])], kind='minv-panic')); continue
+        po = parse(o)
+        if po == ['none']: dist['unparseable'] += 1; continue
+        results[key] = (c, dec_some_range(po[0]), None if po[1] == 'none' else dec_version(po[1][1]))
+    # second phase: does the returned version satisfy the range?
+    extra = []
+    for key, (c, st, m) in results.items():
+        if m is not None and not (isinstance(obs.sat.get(key), dict) and m in obs.sat[key]):
+            extra.append(dump(['sat', parse(key), [enc_version(m)]]))
+    if extra and RUNNER:
+        dist['second_phase_probes'] = len(extra)
+        more = RUNNER(extra)
+        obs2 = Obs(more)
+        for k, d in obs2.sat.items():
+            if isinstance(d, dict) and isinstance(obs.sat.get(k), dict): obs.sat[k].update(d)
+            elif k not in obs.sat: obs.sat[k] = d
+    for key, (c, st, m) in results.items():
+        e = parse(key); s = obs.sat.get(key)
+        dist['ranges'] += 1
+        if not isinstance(s, dict):
+            fails.append(fail('satisfies panicked on %s' % rtext(e), c, input=[rtext(e)], kind='minv-panic')); continue
+        good = [v for v in s if s[v]]
+        if m is None:
+            dist['none'] += 1
+            if good:
+                fails.append(fail('%s.min_version() is None but %s satisfies it' % (rtext(e), vtext(good[0])), c, input=[rtext(e), vtext(good[0])], kind='minv-none'))
+        else:
+            dist['some'] += 1
+            if m[3]: dist['result_is_prerelease'] += 1
+            if len(st or []) > 1 or m[3]: nontrivial += 1
+            if m in s and not s[m]:
+                fails.append(fail('%s.min_version() = %s, which does not satisfy the range' % (rtext(e), vtext(m)), c, input=[rtext(e), vtext(m)], kind='minv-unsat'))
+            lower = [v for v in good if py_vcmp(v, m) < 0]
+            if lower:
+                fails.append(fail('%s.min_version() = %s but the lower version %s satisfies the range' % (rtext(e), vtext(m), vtext(lower[0])), c,
+                                  input=[rtext(e), vtext(m), vtext(lower[0])], kind='minv-not-least'))
+        if st and len(certs) < 3000 and rng.random() < 0.3:
+            certs.append('r_min_version %s = %s' % (F.g_range(st), 'None' if m is None else 'Some %s' % F.g_version(m)))
+    return {'failures': fails[:40], 'nontrivial': nontrivial, 'distribution': dist, 'certs': certs}
